@@ -43,3 +43,5 @@ RULES
  - Disk/time: remove scratch files you create under /tmp when done. Keep going until the deliverables are complete and robust; depth of the theorems matters more than breadth of prose.
 
 FINAL REPORT (your last message, concise): files created; list of theorems in Props/C09.v with one line each (full / partial / refuted); what ties the model to the code and the measured volumes/timings; mutations tried and which were caught (and how); findings on the unchanged tree with witnesses and proposed patches; anything in DESIGN.md's C09 section that turned out wrong or infeasible.
+
+NOTE FOR C09: the lexer/parser/evaluator model already exists (engineer of C03 owns it, read-only for you, it may still receive small additions): coq/Model/Lexer.v, coq/Model/Parser.v, coq/Model/ParserGrammar.v, coq/Model/Eval.v, coq/Props/C03.v, harness/props/c03.py. Another engineer is building C10 (name usage: vars_of/funcs_of/suffixes_of on trees and `names_exact`) in parallel in files named coq/Model/ParserState.v / coq/Proofs/ParserState*.v / coq/Proofs/Names*.v — do not wait for it: define what you need about "the names occurring in a tree" in your own files (reuse C03's functions if they already exist there) and state `undefined_name_rejected` over trees of the C03 model. Your own model files: coq/Model/Restrict.v (+ Gen/Restrict.v by translator, Bridge/Restrict.v).
